@@ -7,5 +7,6 @@ CONSTANTS
  DevSplitAll = FALSE
  DevTmplMerge = TRUE
  DevSkipUserUnknown = FALSE
+ DevIdReuse = FALSE
 INVARIANT StoreIsDeclarative
 CHECK_DEADLOCK FALSE
